@@ -7,8 +7,8 @@ NA_REASONS = json.load(open(os.path.join(ROOT, "harness", "not_applicable.json")
 ids = [json.loads(l)["id"] for l in open(os.path.join(ROOT, "properties.jsonl")) if l.strip()]
 checks, na = [], []
 for pid in ids:
-    if os.path.exists(os.path.join(ROOT, "harness", "props", pid.lower() + ".py")):
-        m = importlib.import_module(pid.lower())
+    m = importlib.import_module(pid.lower()) if os.path.exists(os.path.join(ROOT, "harness", "props", pid.lower() + ".py")) else None
+    if m is not None and getattr(m, "READY", False):
         checks.append({
             "property_id": pid,
             "quick_cmd": "./check %s --tier quick" % pid,
@@ -28,7 +28,7 @@ man = {
     "hooks": {
         "guard": "ONDRIK_LIBVATA_VERIF",
         "enable": "harness/build.py compiles /repo/src from the working tree into /verif/.build/<flavour> with -DONDRIK_LIBVATA_VERIF -DNDEBUG (out of tree, incremental)",
-        "baseline_off_cmd": "cmake --build /repo/_build && ctest --test-dir /repo/_build -j8 --timeout 900",
+        "baseline_off_cmd": "/verif/harness/baseline.sh",
         "source_commits": json.load(open(os.path.join(ROOT, "harness", "hook_commits.json"))),
         "add_only": True,
     },
@@ -37,7 +37,7 @@ man = {
                                    "run against libvata rebuilt from /repo on generated cases; harness/core.py orchestrates build, generation, judging, shrinking, evidence"}],
     "checks": checks,
     "not_applicable": na,
-    "notes": "See DESIGN.md. known_findings.json lists genuine defects (fixed ones suppress nothing).",
+    "notes": "See DESIGN.md. known_findings/<ID>.json list genuine defects (fixed ones suppress nothing).",
 }
 json.dump(man, open(os.path.join(ROOT, "MANIFEST.json"), "w"), indent=1)
 print("MANIFEST.json: %d checks, %d not claimed" % (len(checks), len(na)))
